@@ -139,24 +139,30 @@ class RtRig:
         self.log.append((st, 'raw', list(msg), time_, (addr.hostname, addr.port), port))
 
     def connect_tcp(self):
+        # (other programs hold the first local port(s) the connection would
+        # take: its receive port is a later one of the range, and it is the
+        # kernel of the accepting side that says which - Peer.port)
         from .c18_tcp import Peer
         if self.peer is not None:
             self.peer.close()
-        self.peer = Peer(self.rig)
+        self.n_tcp = getattr(self, 'n_tcp', 0) + 1
+        self.peer = Peer(self.rig, block=1 + self.n_tcp % 2, explicit=self.n_tcp % 3 == 0)
+        if self.peer.ok and self.peer.walked:
+            self.acc.count('rt_tcp_connections_behind_held_ports')
         return self.peer.ok
 
     def endpoint(self, transport):
         """-> (sender address the library will see, receive port)"""
         if transport == 'tcp':
-            return tuple(self.peer.addr), self.peer.itf.port
-        return self.udp_addr, self.rig.itf.port
+            return tuple(self.peer.addr), self.peer.port
+        return self.udp_addr, self.rig.port
 
     def send(self, d, transport):
         if transport == 'tcp':
             from .c18_tcp import frame
             self.peer.conn.sendall(frame(d))
         else:
-            self.rig.sock.sendto(d, ('127.0.0.1', self.rig.itf.port))
+            self.rig.sock.sendto(d, ('127.0.0.1', self.rig.port))
 
     def reset_after_violation(self, runner):
         """The tables may be inconsistent after the defect just reported and
@@ -214,7 +220,7 @@ class RtRunner(HistoryRunner):
             pa = tuple(rt.peer.addr)
             self.senders.append(pa)
             self.src_pool = self.src_pool + [pa, (pa[0], None)]
-            self.ports = self.ports + [rt.peer.itf.port]
+            self.ports = self.ports + [rt.peer.port]
         self.ports_usable = False      # one transport end point per round
         self.round_no = 0
         self.round_info = None
@@ -495,6 +501,9 @@ class RtRunner(HistoryRunner):
                     self.violation('C18/concurrent/wrong-args/msg', got=_j(rmsg), **w)
                 if not (isinstance(rtime, float) and t0 - 1e-6 <= rtime <= t1 + 1e-6):
                     self.violation('C18/concurrent/wrong-args/time', got=rtime, t0=t0, t1=t1, **w)
+                if rport != port:
+                    self.violation('C18/concurrent/recv-port/not-the-port-the-datagram-'
+                                   'arrived-on/' + transport, got=rport, arrived_on=port, **w)
                 if tuple(raddr) != tuple(sender) or rport != port:
                     self.violation('C18/concurrent/wrong-args/sender-or-port',
                                    got=[raddr, rport], expected=[sender, port], **w)
